@@ -7,6 +7,7 @@ the INTENT handed to the API.  ACQUIRE / EXPIRE / nlmsgerr frames are built by t
 net/xfrm/xfrm_user.c and netlink_ack() build them and handed to Xfrm.parse_message / Xfrm.send_recv.
 """
 import functools
+import gc
 import hashlib
 import ipaddress
 import itertools
@@ -213,11 +214,16 @@ def sel_base(over):
     return b
 
 
-def product_cases(api, sel_reg, other_dims, base_other, phases):
-    """full product inside each structure region, every region value meeting the others by rotation, and the
-    complete pairwise cross (value x value) of every selector dimension with every other dimension"""
-    names = list(other_dims)
-    other_reg = [dict(zip(names, vals)) for vals in itertools.product(*other_dims.values())]
+def product_cases(api, sel_reg, other_dims, base_other, phases, full=None):
+    """full product inside each structure region (of the dimensions `full` of the non-selector region; the
+    remaining ones rotate), every region value meeting the others by rotation, and the complete pairwise cross
+    (value x value) of every selector dimension with every other dimension and of the other dimensions"""
+    names = [n for n in other_dims if full is None or n in full]
+    other_reg = [dict(zip(names, vals)) for vals in itertools.product(*(other_dims[n] for n in names))]
+    for j, o in enumerate(other_reg):
+        for k, (n, vals) in enumerate(other_dims.items()):
+            if n not in o:
+                o[n] = vals[(j * (3 + 2 * k) + k) % len(vals)]
     cases = []
     for ph in range(phases):
         for i, s in enumerate(sel_reg):
@@ -244,7 +250,8 @@ def product_cases(api, sel_reg, other_dims, base_other, phases):
 def newsa_cases(quick):
     other = dict(tunnel=TUNNELS, mode=MODES, lifetime=LIFETIMES, spi=SPIS, alg=ALGS)
     base = dict(tunnel=TUNNELS[0], mode=1, lifetime=300, spi=SPIS[1], alg=ALGS[5])
-    cases = product_cases('create_sa', sel_region(), other, base, 1 if quick else 16)
+    cases = product_cases('create_sa', sel_region(), other, base, 1 if quick else 16,
+                          ('tunnel', 'mode', 'lifetime', 'alg') if quick else None)
     if not quick:       # every port number on either side
         for p in range(65536):
             cases.append(dict(api='create_sa', **sel_base({'sport': p, 'dport': 65535 - p}), **base))
@@ -275,7 +282,8 @@ def confpol_cases(quick):
     other = dict(tunnel=TUNNELS, mode=MODES, ipsec_proto=[50, 51], index=CONF_INDEXES, entries=[1, 2])
     base = dict(tunnel=TUNNELS[0], mode=1, ipsec_proto=50, index=1, entries=1)
     reg = [s for s in sel_region() if not quick or (s['sport'] in (0, 256) and s['dport'] in (0, 65535))]
-    cases = product_cases('create_policies', reg, other, base, 1)
+    cases = product_cases('create_policies', reg, other, base, 1,
+                          ('tunnel', 'mode', 'ipsec_proto', 'entries') if quick else None)
     for c in cases:
         if c['ip_proto'] == 58:     # the configuration language has no ICMPv6; icmp takes its place
             c['ip_proto'] = 1
@@ -295,7 +303,8 @@ def child_cases(quick):
                  spis=[('01020304', 'a1b2c3d4'), ('ffffffff', '00000001')])
     base = dict(tunnel=TUNNELS[0], mode=1, lifetime=300, transforms=tr[4], is_initiator=True, randint_hi=False,
                 spis=('01020304', 'a1b2c3d4'))
-    return product_cases('create_child_sa', sels, other, base, 1 if quick else 8)
+    return product_cases('create_child_sa', sels, other, base, 1 if quick else 8,
+                         ('transforms', 'is_initiator', 'lifetime') if quick else None)
 
 
 # ------------------------------------------------------------------ running the real API
@@ -664,15 +673,15 @@ def run_request_unit(unit):
     for c, exc, start, n, pydec, errs in runs:
         gots = decoded[start:start + n]
         res['evaluations'] += max(n, 1)
+        problems = []
         if exc is not None:
-            problems = [('call', 'no exception (the model kernel acknowledges)', exc)]
-            effect = 'exception:' + exc.split(':')[0]
-        else:
-            effect = 'mismatch'
-            problems = match_frames(expected_frames(c), gots)
-            if any(errs):
-                problems.append(('call.refused-by-model-kernel', 'ack', errs))
-        for clause, e, g in problems:
+            problems.append(('call', 'no exception (the model kernel acknowledges)', exc, 'exception:' + exc.split(':')[0]))
+        exps = expected_frames(c)
+        if exc is None or len(exps) == len(gots):     # what was written is judged even when the call failed
+            problems += [x + ('mismatch',) for x in match_frames(exps, gots)]
+        if exc is None and any(errs):
+            problems.append(('call.refused-by-model-kernel', 'ack', errs, 'mismatch'))
+        for clause, e, g, effect in problems:
             res['violations'].append(('%s:%s:%s' % (clause, label(c), effect),
                                       '%s: the kernel structures decode %s = %r, intended %r; call %r' % (
                                           label(c), clause, g, e, c), dict(kind='request', case=c, seed=unit['seed'])))
@@ -740,8 +749,10 @@ def event_cases(quick):
     exp_base = dict(tunnel=TUNNELS[0], ipsec_proto=50, mode=0, spi=SPIS[1], hard=0, seq=0, lifetime=300, reqid=0,
                     tail='')
     reg = sel_region()
-    return (product_cases('acquire', reg, acq_other, acq_base, 1 if quick else 4) +
-            product_cases('expire', reg, exp_other, exp_base, 1 if quick else 4))
+    return (product_cases('acquire', reg, acq_other, acq_base, 1 if quick else 4,
+                          ('tunnel', 'index', 'tail', 'ntmpl') if quick else None) +
+            product_cases('expire', reg, exp_other, exp_base, 1 if quick else 4,
+                          ('tunnel', 'spi', 'hard', 'tail') if quick else None))
 
 
 def _get(obj, path):
@@ -910,8 +921,12 @@ def run_reply_unit(unit):
         key = json.dumps(c['op'], sort_keys=True)
         if key not in first:
             ep = new_ep()
-            call_op(c['op'])
-            first[key] = ep.kernel.log[0][0]
+            try:
+                call_op(c['op'])
+            except Exception:     # noqa - a request the model kernel refuses is the request units' finding
+                pass
+            first[key] = ep.kernel.log[0][0] if ep.kernel.log else None
+    cases = [c for c in cases if first[json.dumps(c['op'], sort_keys=True)] is not None]
     specs = []
     for c in cases:
         if c['source'] != 'model':
@@ -996,6 +1011,7 @@ def run_reply_unit(unit):
 # ------------------------------------------------------------------ driver
 
 def run_unit(unit):
+    gc.disable()      # tens of thousands of small live dicts: the cyclic collector would dominate the run time
     return dict(request=run_request_unit, event=run_event_unit, reply=run_reply_unit)[unit['kind']](unit)
 
 
@@ -1019,14 +1035,25 @@ def all_units(quick, seed):
 
 
 def pair_coverage(cases, region_of):
-    """measured: value pairs of dimensions from different structure regions that occur together"""
-    seen = set()
+    """measured per API: [value pairs of dimensions from different structure regions that occur together, number
+    of such pairs that exist over the values seen] (ports outside the small alphabet are left out)"""
+    seen, values = {}, {}
+    small = set(PORTS + EXTRA_PORTS)
     for c in cases:
-        items = [(k, json.dumps(v)) for k, v in c.items() if k in region_of]
+        items = [(k, json.dumps(v)) for k, v in c.items() if k in region_of and
+                 (k not in ('sport', 'dport') or v in small)]
+        for k, v in items:
+            values.setdefault((c['api'], k), set()).add(v)
         for (k1, v1), (k2, v2) in itertools.combinations(items, 2):
             if region_of[k1] != region_of[k2]:
-                seen.add((k1, v1, k2, v2))
-    return len(seen)
+                seen.setdefault(c['api'], set()).add((k1, v1, k2, v2))
+    out = {}
+    for api, pairs in seen.items():
+        dims = [k for a, k in values if a == api]
+        need = sum(len(values[api, a]) * len(values[api, b]) for a, b in itertools.combinations(dims, 2)
+                   if region_of[a] != region_of[b])
+        out[api] = [len(pairs), need]
+    return out
 
 
 def replay(path):
@@ -1055,7 +1082,9 @@ def main():
         if K.SIZES[typ] != KC['sizeof(%s)' % name]:
             harness.append('harness/kernel.py SIZES[%#x] = %d, sizeof(%s) = %d' % (typ, K.SIZES[typ], name,
                                                                                   KC['sizeof(%s)' % name]))
+    gc.disable()
     groups, units = all_units(ck.quick, ck.seed)
+    gc.freeze()
     results = ck.pmap(run_unit, units)
     digests = set()
     per_group = {}
@@ -1104,8 +1133,9 @@ def main():
                        configured_indexes=CONF_INDEXES, errnos=ERRNOS_QUICK if ck.quick else '1..133',
                        acquire_tail_attributes=['', 'XFRMA_POLICY_TYPE', 'XFRMA_MARK', 'XFRMA_POLICY_TYPE+XFRMA_MARK']),
         per_group=per_group,
-        cross_region_value_pairs_covered={name: pair_coverage(cases, region) for _, name, cases in groups
-                                          if name != 'ack / error replies' and name != 'DELSA / FLUSH'},
+        cross_region_value_pairs_covered_of_existing=pair_coverage(
+            [c for _, name, cases in groups if name not in ('ack / error replies', 'DELSA / FLUSH') for c in cases],
+            region),
         distinct_outcomes=outcomes,
         harness_python_encoder_frames_compared=py_cmp,
         harness_disagreements=sorted(set(harness))[:20],
